@@ -357,6 +357,11 @@ nextFileMatch:
 	}
 
 	for _, md := range d.repoMetaData {
+		// 🚨 SECURITY: Do not expose the names and URL templates of repositories
+		// that belong to another tenant.
+		if !tenant.HasAccess(ctx, md.TenantID) {
+			continue
+		}
 		r := md
 		addRepo(&res, &r)
 		for _, v := range r.SubRepoMap {
